@@ -186,16 +186,49 @@ Definition rgl_fragment_rest : rg_p :=
   rg_seq (rg_sat rg_is_fragname) (rg_seq (rg_seq (rg_sat (rg_is_kw rg_s_on)) rg_name)
     (rg_seq (rgl_directives LP false) (rgl_selset LP))).
 
-(* whatever the first token is, it is bumped as the `fragment` keyword *)
-Lemma rl_sim_fragment_definition f first :
-  rl_sim (rg_starts first) (g_fragment_definition f) (rg_seq (rg_sat first) rgl_fragment_rest).
+(* the node: whatever the first token is, it is bumped as the `fragment` keyword *)
+Lemma rl_sim_fragment_definition_node f first :
+  rl_sim (rg_starts first)
+    (p_node SK_FRAGMENT_DEFINITION (
+       p_bump SK_fragment_KW ;; g_fragment_name ;; g_type_condition ;;
+       g_if_peek TkAt (g_directives f GNotConst) ;;
+       b <- g_peek_is TkLCurly ;; if b then g_selection_set f else p_err))
+    (rg_seq (rg_sat first) rgl_fragment_rest).
 Proof.
-  unfold g_fragment_definition, rgl_fragment_rest. apply rl_sim_node.
+  unfold rgl_fragment_rest. apply rl_sim_node.
   apply rl_sim_bind; [apply rl_sim_bump|intros _].
   apply rl_sim_bind; [apply rl_sim_fragment_name|intros _].
   apply rl_sim_bind; [apply rl_sim_type_condition|intros _].
   apply rl_sim_bind; [apply (rl_sim_directives_opt f GNotConst)|intros _].
   apply rl_sim_selset_or; [apply rl_gen_err|]. intros s u s' E Hok. eapply rl_err_run; eauto.
+Qed.
+
+Lemma rl_gen_fragment_definition f : rl_gen (g_fragment_definition f).
+Proof. split; [apply (gg_fragment_definition CT CT_ok)|apply (gg_fragment_definition CX CX_ok)]. Qed.
+
+(* fragment_definition entered on the keyword: the test for a leading string fails, the node is built *)
+Lemma rl_sim_fragment_definition f :
+  rl_sim (rg_starts (rg_is_kw rg_s_fragment)) (g_fragment_definition f)
+    (rg_seq (rg_sat (rg_is_kw rg_s_fragment)) rgl_fragment_rest).
+Proof.
+  split; [apply rl_gen_fragment_definition|]. intros s u s' E Hok Ht Hp. pose proof Hok as [Hinv Ha].
+  destruct (rl_inv_cur _ Hinv) as (t & Hc & Hi & _).
+  unfold g_fragment_definition in E. unfold p_bind at 1 in E. rewrite (peek_is_some TkStringValue t s Hc) in E.
+  rewrite (rl_peek_is_view _ _ _ Hinv Hc) in E by discriminate.
+  assert (Hh : rl_head_is (rg_is TkStringValue) (rl_sigs s) = false).
+  { destruct (rl_sigs s) as [|[k d] ts]; [reflexivity|]. cbn [rg_starts] in Hp. unfold rg_is_kw in Hp. cbn [fst] in Hp.
+    destruct k; try discriminate Hp; reflexivity. }
+  rewrite Hh in E.
+  exact (proj2 (rl_sim_fragment_definition_node f (rg_is_kw rg_s_fragment)) s u s' E Hok Ht Hp).
+Qed.
+
+(* fragment_definition entered on a string (the dispatch looked through it at the keyword): reported *)
+Lemma rl_fragment_definition_after_string f s u s' t :
+  rl_ok s -> ps_cur s = Some t -> tok_kind t = TkStringValue -> g_fragment_definition f s = POk (u, s') ->
+  ps_errors s' <> ps_errors s.
+Proof.
+  intros Hok Hc Hk E. unfold g_fragment_definition in E. unfold p_bind at 1 in E.
+  rewrite (peek_is_some TkStringValue t s Hc), Hk in E. cbn [tkind_eqb] in E. eapply rl_err_and_pop_run; eauto.
 Qed.
 
 Lemma rgl_fragment_rest_eq w r : rg_streq rg_s_on w = false ->
